@@ -174,10 +174,12 @@ def _invariant_ok(ctx, cg, es, e) -> str | None:
                             if c2 and ok and isinstance(k, int):
                                 gs = _group_set(src, k)
                                 if gs is not None and \
-                                        gs <= frozenset(range(0x30, 0x3a)):
+                                        gs <= frozenset(range(0x30, 0x3a)) \
+                                        and _short(src, k):
                                     return (f'group({k}) of '
                                             f'{v.func.value.attr} is '
-                                            f'digits-only')
+                                            f'digits-only and at most '
+                                            f'{INT_DIGITS} long')
                 # (b) guarded by `if not P.match(atom): raise`
                 for t in walk_local(f.node):
                     if isinstance(t, ast.If) and any(
@@ -192,7 +194,8 @@ def _invariant_ok(ctx, cg, es, e) -> str | None:
                                 if c2 and rx.consumable(src) <= frozenset(
                                         range(0x30, 0x3a)) and (
                                         src.startswith(b'^')
-                                        and src.endswith(b'$')):
+                                        and src.endswith(b'$')) and \
+                                        _short(src, 0):
                                     return (f'guarded by the digits-only '
                                             f'pattern {pn}')
             # (c) pieces of a group over digits, spaces and the separator
@@ -219,7 +222,8 @@ def _invariant_ok(ctx, cg, es, e) -> str | None:
                                     gs = _group_set(src, k) if c2 else None
                                     allowed = set(range(0x30, 0x3a)) | \
                                         {0x20} | (set(sep) if ok2 else set())
-                                    if gs is not None and gs <= allowed:
+                                    if gs is not None and gs <= allowed \
+                                            and _short(src, k):
                                         return (f'pieces of group({k}) of '
                                                 f'{v.func.value.attr}: '
                                                 f'digits, spaces and the '
@@ -254,6 +258,18 @@ def _invariant_ok(ctx, cg, es, e) -> str | None:
             return ('str branch of Flag.__init__ (not isinstance(value, '
                     'bytes)); Flag.parse constructs from Atom bytes')
     return None
+
+
+INT_DIGITS = 4300      # sys.get_int_max_str_digits(): int() of a longer
+#                        digit string raises ValueError
+
+
+def _short(src, k: int) -> bool:
+    try:
+        w = rx.group_max_width(src, k)
+    except Exception:
+        return False
+    return w is not None and w <= INT_DIGITS
 
 
 def _group_set(src, k: int):
@@ -1120,6 +1136,24 @@ def r610(ctx) -> None:
                     f'"{{0+}}\\r\\n", and the loop neither ends nor yields — '
                     f'`a {{0+}}` + disconnect hangs the whole server '
                     f'process')
+        # the marker's digit run is short enough for int()
+        pa = ctx.proj.cls(rel, cn).find_attr('_literal_plus')
+        okw = False
+        if pa and isinstance(pa[1], ast.Call) and pa[1].args:
+            c2, src = const_value(pa[1].args[0])
+            okw = c2 and _short(src, 1)
+        ints = [c for c in calls_in(f.node, 'int')]
+        guarded = all(any(any(txt(h.type or '') .endswith('ValueError')
+                              or h.type is None for h in t.handlers)
+                          for t in enclosing(f.node, c, (ast.Try,)))
+                      for c in ints)
+        R.check(okw or (bool(ints) and guarded), f, f.node,
+                f'{cn}.{meth}: the {{n+}} length converts without error',
+                f'the marker pattern admits an unbounded digit run and the '
+                f'int() conversion is not guarded: "{{" + 5000 digits + '
+                f'"+}}" raises ValueError (CPython converts at most '
+                f'{INT_DIGITS} digits) inside the read loop, outside any '
+                f'command — the connection ends with an internal error')
         # the {n+} marker is searched in the fresh line, not in the buffer
         for c in calls_in(f.node):
             if call_name(c) in ('search', 'match', 'fullmatch') and \
